@@ -154,6 +154,9 @@ pub fn run(ctx: &Ctx) {
     ctx.assume("termination is observed as 'the call returned'; a 60 s per-process hang would show as the check not finishing (no unbounded loop without input consumption exists in the lexer/parser)");
     drive(ctx, oracle_c02);
     depth_probes(ctx);
+    if ctx.tier == Tier::Thorough {
+        crate::fuzzstage::run(ctx, "C02", oracle_c02);
+    }
 }
 
 pub fn replay(ctx: &Ctx, case: &Value) {
